@@ -162,7 +162,8 @@ def clone_user_dir(src, dest):
 
 def build_harness(flavour):
     b = vlib.librime_build(flavour)
-    exe = os.path.join(vlib.WORK, "bin", "udbl-" + flavour)
+    import hashlib
+    exe = os.path.join(vlib.WORK, "bin", "udbl-%s-%s" % (flavour, hashlib.sha256(b.encode()).hexdigest()[:8]))
     src = os.path.join(HARNESS, "udbl.cc")
     stamp = exe + ".stamp"
     key = "%s:%d:%d" % (b, os.stat(src).st_mtime_ns, os.stat(os.path.join(b, "lib", "librime.so")).st_mtime_ns)
@@ -287,6 +288,8 @@ class DbHistory:
         self.ops = []        # canonical op strings, in order
         self.flags = []      # (loaded, in_txn) the hook saw at each op
         self.events = []     # model tokens per event
+        self.event_cmd = []  # script command in progress when the event was logged
+        self.op_cmd = []     # script command in progress at each call
         self.raw_events = []
         self.unmodelled = []
         self.ids = {}
@@ -325,6 +328,7 @@ def parse_log(path):
             else:
                 s = op
             h.ops.append(s)
+            h.op_cmd.append(order.last_cmd)
             h.flags.append((ld, tx))
             order.append(name)
         elif f[0] == "E":
@@ -373,6 +377,7 @@ def parse_log(path):
                 h.unmodelled.append(l)
                 continue
             h.events.append(ev)
+            h.event_cmd.append(order.last_cmd)
             h.raw_events.append(l)
     return order, dbs
 
@@ -486,7 +491,83 @@ def gen_history(rnd, schema, steps, two_sessions=False, lookups=False):
 def build_killpoint():
     src = os.path.join(HARNESS, "killpoint.c")
     out = os.path.join(vlib.WORK, "bin", "udbl-killpoint.so")
+    os.makedirs(os.path.dirname(out), exist_ok=True)
     if os.path.exists(out) and os.stat(out).st_mtime_ns > os.stat(src).st_mtime_ns:
         return out
     vlib.sh("gcc -shared -fPIC -O1 -o %s %s -ldl" % (out, src), check=True, timeout=120)
     return out
+
+
+# ---------------------------------------------------------------------------
+# C10: structured histories (probe the candidate list before and after every step)
+# ---------------------------------------------------------------------------
+
+def input_pool(rnd, schema):
+    if schema == "vscript":
+        pool = set()
+        while len(pool) < 9:
+            pool.add("".join(rnd.choice(SYLLABLES[:6]) for _ in range(rnd.choice([1, 2, 2, 2, 3]))))
+        s2 = rnd.choice(SYLLABLES[:6])
+        pool.add(s2 + s2)          # the same entry twice in one commit
+        return sorted(pool)
+    if schema == "vtable":
+        return ["aa", "ab", "ba", "bb", "abc", "c", "aaab", "aabb", "abba", "abcaa", "aaaa", "abab"]
+    return ["ni", "hao", "nihao", "zhongguo", "women", "shijie", "wo", "de", "nihaoshijie", "womende", "nini"]
+
+
+def gen_c10_history(rnd, schema, steps, pool):
+    """script lines + plan [(kind, input, first line index, last line index)]"""
+    L = ["S 1 %s" % schema]
+    plan = []
+    recent = []
+    for _ in range(steps):
+        x = rnd.choice(recent) if recent and rnd.random() < 0.55 else rnd.choice(pool)
+        recent = (recent + [x])[-3:]
+        r = rnd.random()
+        a = len(L)
+        if r < 0.42:
+            kind = "select"
+            L += ["L 1 %s" % x, "K 1 %s" % x, "P 1 %d" % rnd.choice([0, 0, 1, 1, 2, 3, 4, 5, 7]), "F 1", "L 1 %s" % x]
+        elif r < 0.56:
+            kind = "top"
+            L += ["L 1 %s" % x, "K 1 %s" % x, "F 1", "L 1 %s" % x]
+        elif r < 0.70:
+            # learn something the static dictionary is unlikely to have (a non-top selection,
+            # usually partial), then delete the top candidate - now that learned phrase
+            pr = rnd.choice([1, 2, 3, 4, 5])
+            kind = "select"
+            L += ["L 1 %s" % x, "K 1 %s" % x, "P 1 %d" % pr, "F 1", "L 1 %s" % x]
+            plan.append((kind, x, a, len(L) - 1))
+            a = len(L)
+            kind = "delete"
+            L += ["L 1 %s" % x, "K 1 %s" % x, "X 1 0", "R 1", "L 1 %s" % x]
+            if rnd.random() < 0.5:
+                # and learn it again the same way: it must come back
+                plan.append((kind, x, a, len(L) - 1))
+                a = len(L)
+                kind = "select"
+                L += ["L 1 %s" % x, "K 1 %s" % x, "P 1 %d" % pr, "F 1", "L 1 %s" % x]
+        elif r < 0.82:
+            kind = "delete"
+            L += ["L 1 %s" % x, "K 1 %s" % x, "X 1 %d" % rnd.choice([0, 0, 0, 1, 1, 2, 3]), "R 1", "L 1 %s" % x]
+        elif r < 0.90:
+            kind = "undo"
+            L += ["L 1 %s" % x, "K 1 %s" % x, "F 1", "K 1 {BackSpace}", "L 1 %s" % x]
+        else:
+            kind = "restart"
+            L += ["D 1", "Z %s" % ("vscript" if schema == "vscript" else "vtable" if schema == "vtable" else "luna_pinyin"),
+                  "S 1 %s" % schema]
+        plan.append((kind, x, a, len(L) - 1))
+    return L, plan
+
+
+def group_output(out):
+    """harness stdout -> {command index: [lines]}"""
+    g, cur = {}, None
+    for l in out.split("\n"):
+        if l.startswith("@ "):
+            cur = int(l[2:])
+            g[cur] = []
+        elif cur is not None and l.strip():
+            g[cur].append(l)
+    return g
